@@ -357,7 +357,7 @@ Section Resume.
          end.
 
   Definition commit (s : state) : option (list (option C)) :=
-    if nodup_n (bk_move (s_bowl s))
+    if (fresh || nodup_n (bk_move (s_bowl s)))%bool      (* freshBowl.Commit has nothing to do *)
     then Some (map (fun i => file_result s (N.of_nat i)) (seq 0 (N.to_nat nfiles)))
     else None.
 
